@@ -58,6 +58,11 @@ Next == /\ l <= Len(Trace)
              IF e.ev = "Enc"
              THEN LET r3 == C03Verdict(e) r4 == C04Verdict(e) IN
                   /\ Report(l, e, r3) /\ Report(l, e, r4)
+                  \* second pass request: where the library's bytes are not the reference encoder's (or it refused), the reference
+                  \* encoding itself is fed to the real decoder (event Dec); values using an extension of an extensible constraint, which the
+                  \* library may refuse to encode, are left out as in C03
+                  /\ (IF PerValid(e.tree) /\ PerInRoot(e.tree) /\ ~PerLong(e.tree) /\ (e.err \/ e.bytes # PerEncode(e.tree))
+                      THEN PrintT("SPECBYTES " \o Str(e.id) \o " " \o Str(PerEncode(e.tree))) ELSE TRUE)
                   /\ bad' = bad + (IF r3.ok THEN 0 ELSE 1) + (IF r4.ok THEN 0 ELSE 1)
              ELSE LET r == Explain(e) IN
                   /\ Report(l, e, r)
